@@ -3,6 +3,8 @@ package main
 import (
 	"fmt"
 	"os"
+	"sort"
+	"time"
 	"go/constant"
 	"go/token"
 	"go/types"
@@ -19,6 +21,7 @@ type Stats struct {
 	MergedCalls int64
 	MergedPaths int64
 	MergeAborts int64
+	MemoHits    int64
 }
 
 type Interp struct {
@@ -60,6 +63,8 @@ type Interp struct {
 	fmtCache       map[string][]*Term
 	globalStampMax int64
 	baseDoms       map[*Term]ByteSet
+	memo           map[string]*memoEntry
+	deadline       time.Time
 }
 
 type globalUndo struct {
@@ -140,7 +145,7 @@ func (in *Interp) ensureInit(p *ssa.Package) {
 	}
 	in.initDone[p] = true
 	path := p.Pkg.Path()
-	if initSkip[path] {
+	if initSkip[path] || path == in.P.vvPath {
 		return
 	}
 	initFn := p.Func("init")
@@ -292,6 +297,8 @@ func resultMergeable(t types.Type) bool {
 		return u.Info()&(types.IsInteger|types.IsBoolean|types.IsString) != 0
 	case *types.Interface:
 		return t.String() == "error"
+	case *types.Pointer, *types.Slice, *types.Struct:
+		return true
 	}
 	return false
 }
@@ -333,7 +340,19 @@ func (in *Interp) mergeable(fn *ssa.Function) bool {
 func (in *Interp) callMerged(fn *ssa.Function, args []Value, env []Value) Value {
 	in.stats.MergedCalls++
 	outer := in.ctx
+	mkey := in.memoKey(fn, args, env)
+	if mkey != "" {
+		if e, ok := in.memo[mkey]; ok {
+			in.stats.MemoHits++
+			return in.useGroups(fn, e.groups, true)
+		}
+	}
 	sub := &Ctx{parent: outer, root: &dnode{}, entryStamp: in.stamp, nested: true, fn: fn.String()}
+	// the nested exploration sees the byte domains of the caller but not its literal table, so
+	// that the result is a function of (arguments, domains) only and can be memoised
+	savedLits, savedTrail := in.lits, in.litTrail
+	in.lits, in.litTrail = map[int32]bool{}, nil
+	restoreLits := func() { in.lits, in.litTrail = savedLits, savedTrail }
 	lm, dm := in.litMark(), in.domMark()
 	depth0 := in.depth
 	cs0 := len(in.callStack)
@@ -348,8 +367,20 @@ func (in *Interp) callMerged(fn *ssa.Function, args []Value, env []Value) Value 
 		sub.paths++
 		in.stats.MergedPaths++
 		if sub.paths > in.P.maxMergedPaths {
-			aborted = "too many paths"
-			break
+			in.undoTo(lm, dm)
+			restoreLits()
+			in.ctx = outer
+			in.depth = depth0
+			in.callStack = in.callStack[:cs0]
+			panic(pathEnd{kind: endUnsupported, msg: fmt.Sprintf("more than %d paths inside %s", in.P.maxMergedPaths, fn)})
+		}
+		if sub.paths%64 == 0 && !in.deadline.IsZero() && time.Now().After(in.deadline) {
+			in.undoTo(lm, dm)
+			restoreLits()
+			in.ctx = outer
+			in.depth = depth0
+			in.callStack = in.callStack[:cs0]
+			panic(pathEnd{kind: endUnsupported, msg: "time budget exhausted inside " + fn.String()})
 		}
 		var out *outcome
 		func() {
@@ -379,6 +410,7 @@ func (in *Interp) callMerged(fn *ssa.Function, args []Value, env []Value) Value 
 		markDone(sub.cur)
 	}
 	in.undoTo(lm, dm)
+	restoreLits()
 	in.ctx = outer
 	in.depth = depth0
 	in.callStack = in.callStack[:cs0]
@@ -399,7 +431,7 @@ func (in *Interp) callMerged(fn *ssa.Function, args []Value, env []Value) Value 
 		var k string
 		switch n.out.kind {
 		case endDone:
-			k = "ok:" + shapeKey(n.out.val)
+			k = "ok:" + in.shapeKey(n.out.val, sub.entryStamp, 0)
 			if strings.Contains(k, "?") {
 				unmergeable = true
 			}
@@ -450,6 +482,26 @@ func (in *Interp) callMerged(fn *ssa.Function, args []Value, env []Value) Value 
 			fmt.Fprintf(os.Stderr, "  MERGE %s group %s cond=%s val=%s\n", fn, g.key, g.cond, showValue(g.val))
 		}
 	}
+	if mkey != "" {
+		cacheable := true
+		for _, g := range groups {
+			if strings.Contains(g.key, "ext") {
+				cacheable = false
+			}
+		}
+		if cacheable {
+			in.memo[mkey] = &memoEntry{groups: groups}
+		}
+	}
+	return in.useGroups(fn, groups, false)
+}
+
+type memoEntry struct {
+	groups []mergeGroup
+}
+
+// useGroups continues the caller with the outcome groups of a merged call.
+func (in *Interp) useGroups(fn *ssa.Function, groups []mergeGroup, fromCache bool) Value {
 	gi := 0
 	if len(groups) > 1 {
 		conds := make([]*Term, len(groups))
@@ -462,7 +514,196 @@ func (in *Interp) callMerged(fn *ssa.Function, args []Value, env []Value) Value 
 	if g.out.kind != endDone {
 		panic(pathEnd{kind: g.out.kind, msg: g.out.msg, site: g.out.site})
 	}
+	if fromCache {
+		return in.deepCopy(g.val)
+	}
 	return g.val
+}
+
+// deepCopy re-allocates every heap object reachable from a cached result.
+func (in *Interp) deepCopy(v Value) Value {
+	switch x := v.(type) {
+	case Tuple:
+		out := make(Tuple, len(x))
+		for i := range x {
+			out[i] = in.deepCopy(x[i])
+		}
+		return out
+	case Struct:
+		out := make(Struct, len(x))
+		for i := range x {
+			out[i] = in.deepCopy(x[i])
+		}
+		return out
+	case Array:
+		out := make(Array, len(x))
+		for i := range x {
+			out[i] = in.deepCopy(x[i])
+		}
+		return out
+	case Iface:
+		if x.T == nil {
+			return x
+		}
+		return Iface{T: x.T, V: in.deepCopy(x.V)}
+	case *Ptr:
+		if x.P == nil {
+			return x
+		}
+		if _, isRx := (*x.P).(*RegexObj); isRx {
+			return x
+		}
+		nv := in.deepCopy(*x.P)
+		return &Ptr{P: &nv, Stamp: in.newStamp(), Obj: x.Obj}
+	case *Slice:
+		if x.Nil {
+			return x
+		}
+		arr := make([]Value, x.Cap)
+		for i := 0; i < x.Cap && x.Off+i < len(x.Arr); i++ {
+			arr[i] = in.deepCopy(x.Arr[x.Off+i])
+		}
+		return &Slice{Arr: arr, Len: x.Len, Cap: x.Cap, Stamp: in.newStamp()}
+	}
+	return v
+}
+
+// memoKey builds a structural key of a call (function, deep argument structure with term ids,
+// and the current domains of the variables occurring in the arguments); "" = not cacheable.
+func (in *Interp) memoKey(fn *ssa.Function, args []Value, env []Value) string {
+	if in.P.noMemo {
+		return ""
+	}
+	var sb strings.Builder
+	sb.WriteString(fn.String())
+	vars := map[*Term]bool{}
+	ok := true
+	var rec func(v Value, depth int)
+	rec = func(v Value, depth int) {
+		if !ok {
+			return
+		}
+		if depth > 10 {
+			ok = false
+			return
+		}
+		switch x := v.(type) {
+		case *Term:
+			fmt.Fprintf(&sb, "t%d,", x.id)
+			in.tb.collectVars(x, vars)
+		case Str:
+			sb.WriteString("s[")
+			for _, b := range x.B {
+				if c, isC := b.Int64(); isC {
+					fmt.Fprintf(&sb, "%d,", c)
+				} else {
+					fmt.Fprintf(&sb, "t%d,", b.id)
+					in.tb.collectVars(b, vars)
+				}
+			}
+			sb.WriteString("]")
+		case Tuple:
+			sb.WriteString("(")
+			for _, e := range x {
+				rec(e, depth+1)
+			}
+			sb.WriteString(")")
+		case Struct:
+			sb.WriteString("{")
+			for _, e := range x {
+				rec(e, depth+1)
+			}
+			sb.WriteString("}")
+		case Array:
+			if len(x) > 64 {
+				ok = false
+				return
+			}
+			sb.WriteString("[")
+			for _, e := range x {
+				rec(e, depth+1)
+			}
+			sb.WriteString("]")
+		case Iface:
+			if x.T == nil {
+				sb.WriteString("nil,")
+				return
+			}
+			if _, isErr := x.V.(*ErrObj); isErr {
+				ok = false
+				return
+			}
+			sb.WriteString("I<" + x.T.String() + ":")
+			rec(x.V, depth+1)
+			sb.WriteString(">")
+		case *Ptr:
+			if x.P == nil {
+				sb.WriteString("nilp,")
+				return
+			}
+			if ro, isRx := (*x.P).(*RegexObj); isRx {
+				fmt.Fprintf(&sb, "rx%p,", ro)
+				return
+			}
+			sb.WriteString("&")
+			rec(*x.P, depth+1)
+		case *Slice:
+			if x.Nil {
+				sb.WriteString("nils,")
+				return
+			}
+			if x.Len > 64 {
+				ok = false
+				return
+			}
+			fmt.Fprintf(&sb, "sl%d/%d[", x.Len, x.Cap)
+			for i := 0; i < x.Len; i++ {
+				rec(x.Arr[x.Off+i], depth+1)
+			}
+			sb.WriteString("]")
+		case *Closure:
+			if x.Fn == nil {
+				sb.WriteString("nilf,")
+				return
+			}
+			sb.WriteString("fn:" + x.Fn.String() + "(")
+			for _, e := range x.Env {
+				rec(e, depth+1)
+			}
+			sb.WriteString(")")
+		case Float:
+			fmt.Fprintf(&sb, "f%v,", float64(x))
+		case nil:
+			sb.WriteString("void,")
+		default:
+			ok = false
+		}
+	}
+	for _, a := range args {
+		rec(a, 0)
+		sb.WriteString(";")
+	}
+	for _, a := range env {
+		rec(a, 0)
+		sb.WriteString(";")
+	}
+	if !ok {
+		return ""
+	}
+	if len(vars) > 0 {
+		ids := make([]*Term, 0, len(vars))
+		for v := range vars {
+			ids = append(ids, v)
+		}
+		sort.Slice(ids, func(i, j int) bool { return ids[i].id < ids[j].id })
+		sb.WriteString("|")
+		for _, v := range ids {
+			if d, has := in.doms[v]; has {
+				fmt.Fprintf(&sb, "%d:%x.%x.%x.%x,", v.id, d[0], d[1], d[2], d[3])
+			}
+		}
+	}
+	return sb.String()
 }
 
 // checkWrite is called before every store to memory with the given allocation stamp.
